@@ -1,6 +1,6 @@
 #!/bin/bash
 # Re-run every stored seeded change against the current checks (one scratch worktree, one scratch harness).
-# usage: seedregress.sh [out-file] [seed-dir-glob]     - prints one line per seed: CAUGHT / MISSED / SKIP (patch no longer applies)
+# usage: [ROUNDS="5 6"] seedregress.sh [out-file] [seed-dir-glob]     - prints one line per seed: CAUGHT / MISSED / SKIP (patch no longer applies)
 OUT=${1:-/tmp/seedregress.out}
 GLOB=${2:-*}
 WT=/tmp/wt_reg
@@ -10,6 +10,8 @@ git -C /repo worktree add --detach $WT -q || exit 2
 for d in /verif/seeded/$GLOB/; do
   name=$(basename $d)
   id=$(python3 -c "import json;print(json.load(open('$d/meta.json'))['property'])")
+  round=$(python3 -c "import json;print(json.load(open('$d/meta.json')).get('round', 0))")
+  if [ -n "$ROUNDS" ] && ! echo " $ROUNDS " | grep -q " $round "; then continue; fi
   git -C $WT checkout -q -- . ; git -C $WT clean -fdq -e target
   if ! git -C $WT apply $d/patch.diff 2>/dev/null; then echo "SKIP   $id $name (patch does not apply to the current tree)" >> $OUT; continue; fi
   log=/tmp/reg_$name.log
